@@ -232,7 +232,8 @@ def main(tier):
     # include graphs enumerated by TLC (spec/JSightInclude.tla), replayed with the file-operation hook on
     incgraph.run(chk, tier, "C08")
     import fixrel
-    fixrel.c08(chk, tier)
+    gen = fixrel.from_texts([("generated-%d" % n, apidoc.render(m["doc"])[0]) for n, m in enumerate(docs) if n % (2 if tier == "thorough" else 4) == 0])
+    fixrel.c08(chk, tier, extra=gen)
     chk.rule = ("pairs (flattened document, multi-file project) for forms one / nested_dirs / two_from_one_place / "
                 "with_empty_and_comment_files / url_children / same_file_twice; rejection cases: missing, directory, "
                 "unreadable, self/2/3-cycles, cycle back to the root, JSIGHT in included file, INCLUDE without name, 9 bad names; "
